@@ -1,5 +1,6 @@
 SPECIFICATION MCSpec
 CONSTANTS
   Universe = "small"
-INVARIANTS Payable DeliveredIsHopValid BuildIsTight
+  Probe = "none"
+INVARIANTS Payable DeliveredIsHopValid BuildIsTight DeliveredFits LimitsAreSums SizeIsExact
 CHECK_DEADLOCK FALSE
